@@ -61,6 +61,15 @@ def gen_pool(r, tier, dc):
         else:
             thr = r.choice((1, 2, points // 2 + 1, points, points + 1))
             cases.append((r.getrandbits(128), add, pool, points, thr, r.choice((0, 1)), mode))
+    # long chains: a small pool (dice are shown) whose add line is low, so that the total passes the 100 dice up to which dice are shown
+    for _ in range(n // 4):
+        points = r.choice((10, 10, 6, 20))
+        add = r.choice((2, 2, 3))
+        pool = r.choice((8, 10, 12, 14))
+        if dc:
+            cases.append((r.getrandbits(128), add, pool, points, 0))
+        else:
+            cases.append((r.getrandbits(128), add, pool, points, r.choice((points // 2 + 1, points)), 1, 0))
     return cases
 
 
